@@ -289,9 +289,16 @@ def equivariance(R, rng, tier):
         # to_polygon encloses the same set up to the discretisation error
         try:
             vx, vy = mk().to_polygon()
-            pt, pd = poly_truth(vx, vy, X, Y)
+            # the grid plus points on 720 rays from the centre (every half degree, so that no thin sector of a curved region is missed)
+            c = mk().center()
+            ang = np.deg2rad(np.arange(0, 360, 0.5) + 0.13)
+            rad = np.array([0.3, 0.8, 1.4, 2.0, 2.6, 3.3, 4.0])
+            XP = np.concatenate([X, (c[0] + rad[:, None] * np.cos(ang)[None, :]).ravel()])
+            YP = np.concatenate([Y, (c[1] + rad[:, None] * np.sin(ang)[None, :]).ravel()])
+            basep = np.asarray(mk().contains(XP, YP))
+            pt, pd = poly_truth(vx, vy, XP, YP)
             disc = 0.01 if name in ('circle', 'ellipse', 'annulus') else 1e-6
-            nb = int(np.sum((pt != base) & (pd > disc)))
+            nb = int(np.sum((pt != basep) & (pd > disc)))
             R.count(('to_polygon', name), 'polygon-approximation')
             if nb:
                 R.fail("roi|to_polygon|%s" % name, "%s.to_polygon(): %d points farther than %g from the outline are classified differently" % (name, nb, disc), None)
